@@ -66,7 +66,7 @@ def _expect(cmd, shape, x, y, d, cd='50'):
             return R('5xx-error-is-not-TorProtocolError', '%r', e)
         if e.code != code:
             return R('error-code-wrong', 'want %d got %r', code, e.code)
-        if not cmd.use_cb and final not in e.text:
+        if final not in e.text:       # with or without a per-line callback the error carries the status text
             return R('error-text-wrong', 'want %r in %r', final, e.text)
     return ''
 
